@@ -152,6 +152,7 @@ type Sched struct {
 	clockJumps int64
 	quiescing  *Task // non-nil while at least one task is inside Quiesce
 	nQuiescing int
+	idleJumps  int
 	keep       []interface{}
 }
 
@@ -437,6 +438,14 @@ func (s *Sched) pick() *Task {
 		}
 		if len(el) == 0 {
 			if haveTimer && at > s.now {
+				// Only sleepers are left.  A task that sleeps in a loop (the
+				// idle merger waker) must not hide a deadlock of everybody
+				// else: give up after many clock jumps in a row during which
+				// no driver task could run.
+				s.idleJumps++
+				if s.idleJumps > 400 {
+					return nil
+				}
 				s.advanceTo(at)
 				continue
 			}
@@ -589,6 +598,9 @@ func (s *Sched) yield(site int) {
 	if next == nil {
 		s.deadlock()
 		parkForever()
+	}
+	if next.Driver {
+		s.idleJumps = 0
 	}
 	s.grant(next)
 	s.mix(uint64(next.ID), uint64(uint32(site)), uint64(next.state))
